@@ -34,4 +34,9 @@ def run(ctx):
         "bound: every event the node served in a page answer of that round is owed at the drain (final-message-not-forwarded), its next "
         "round may start where the failed one started or stopped; the fake node executes metadata calls per group (a call naming another "
         "group than the last byte of the contract id finds no contract), 40% of the tokens live in groups 0..3; paths / shipped "
-        "configurations: see C08")
+        "configurations: see C08"
+        "; cdip: count histories that move backwards - a count poll answers lower than an earlier one (by 1, by 2-4, by everything: 0), once, "
+        "two or three polls in a row, or again after a healthy poll, the page requests of such a tick reaching the lagging backend too (it has "
+        "nothing at or past its own count: no events, nextStart = start, as a full node answers) or the healthy one, events appended meanwhile "
+        "or not, the events fetched before already forwarded or still pending; then the count is right again; every log position is owed "
+        "exactly once (page-gap-or-overlap, poll-forwarded-twice, final-message-not-forwarded)")
